@@ -126,10 +126,12 @@ E13_TEXT = {
     "C02": " located_error is interpreted over 96 abstract failure x nodes x path combinations: each member located once, the same object kept, exactly the lacking path / locations bound, no attribute read that the error does not have.",
     "C03": " The output chain builder and execute_fields alignment are decided by abstract evaluation over type shapes / selections (as C01.R9, C01.R6).",
     "C04": " get_input_coercer is interpreted over every type shape up to three wrappers and compared as a term with the prescribed composition.",
-    "C05": " get_literal_coercer is interpreted over every type shape up to three wrappers and compared as a term with the prescribed composition.",
+    "C05": " get_literal_coercer is interpreted over every type shape up to three wrappers and compared as a term with the prescribed composition; literals.input_object_coercer over the 125 combinations of per-field answers; sync_arguments_coercer on failing awaitables.",
     "C07": " The single-root traversal is interpreted over every selection-set shape up to three fragments deep (266 shapes).",
-    "C11": " Extension.bake merges are interpreted on abstract extensions: every member list of the extended type is what it was followed by the extension's members.",
+    "C11": " Extension.bake merges are interpreted on abstract extensions: every member list of the extended type is what it was followed by the extension's members; register_sdl is interpreted on a modelled file system (text, file, list, directory; with and without module SDL).",
     "C14": " The single-root traversal is interpreted over every selection-set shape up to three fragments deep; the source's operands are resolved on paths back to the producers' results.",
+    "C13": " wraps_with_directives is interpreted on 1500 combinations of directive lists, flags and callables and compared as a term with the prescribed chain (first declared outermost).",
+    "C08": " sync_arguments_coercer is interpreted on zero to three awaitables, each succeeding or failing (one entry per operand, the value or the exception itself; a cancellation propagates).",
 }
 R4_TEXT = {
     "C01": " The variable map the argument tables read has no entry for an omitted variable without default (C04.R2).",
